@@ -144,7 +144,14 @@ def describe(x, depth=0):
                 'alpha': describe(_try(lambda: x.alpha), depth + 1),
                 'calc_func': describe(getattr(x, 'calc_func', None),
                                       depth + 1)}}
-        return {'cls': type(x).__name__, 'args': args}
+        # public attributes derived from arguments that are not themselves
+        # kept (a lost argument shows up here)
+        derived = {}
+        for k, v in sorted(vars(x).items()):
+            if not k.startswith('_') and k not in args and \
+                    '__model__' not in args:
+                derived[k] = describe(v, depth + 1)
+        return {'cls': type(x).__name__, 'args': args, 'derived': derived}
     if isinstance(x, xr.DataArray):
         return {'da': describe(x.values, depth + 1),
                 'dims': list(x.dims),
